@@ -106,39 +106,22 @@ func (r *repository) UpdateRuleSet(srcID string, rules []rule.Rule) error {
 	// find all rules for the given src id
 	applicable := slicex.Filter(r.knownRules, func(r rule.Rule) bool { return r.SrcID() == srcID })
 
-	// find new rules, as well as those, which have been changed.
-	toBeAdded := slicex.Filter(rules, func(newRule rule.Rule) bool {
-		ruleIsNew := !slices.ContainsFunc(applicable, func(existingRule rule.Rule) bool {
-			return existingRule.SameAs(newRule)
-		})
-
-		ruleChanged := slices.ContainsFunc(applicable, func(existingRule rule.Rule) bool {
-			return existingRule.SameAs(newRule) && !existingRule.EqualTo(newRule)
-		})
-
-		return ruleIsNew || ruleChanged
-	})
-
-	// find deleted rules, as well as those, which have been changed.
-	toBeDeleted := slicex.Filter(applicable, func(existingRule rule.Rule) bool {
-		ruleGone := !slices.ContainsFunc(rules, func(newRule rule.Rule) bool {
-			return newRule.SameAs(existingRule)
-		})
-
-		ruleChanged := slices.ContainsFunc(rules, func(newRule rule.Rule) bool {
-			return newRule.SameAs(existingRule) && !newRule.EqualTo(existingRule)
-		})
-
-		return ruleGone || ruleChanged
-	})
-
 	// the position of a rule within the rule set defines its precedence among the rules sharing
-	// a path expression. Adding just the new and the changed rules would put them behind the
-	// unchanged ones. So, if there is anything to add, the entire rule set is replaced.
-	if len(toBeAdded) != 0 {
-		toBeDeleted = applicable
-		toBeAdded = rules
+	// a path expression, and the settings of a rule (like backtracking) are tied to the nodes of
+	// the index. So, if there is any difference between the loaded and the new rule set - a new,
+	// a changed or a removed rule, or just a different order - the entire rule set is replaced.
+	// That way the result is the same as if the new rule set would have been loaded from scratch.
+	unchanged := len(applicable) == len(rules)
+	for idx := 0; unchanged && idx < len(rules); idx++ {
+		unchanged = applicable[idx].SameAs(rules[idx]) && applicable[idx].EqualTo(rules[idx])
 	}
+
+	if unchanged {
+		return nil
+	}
+
+	toBeDeleted := applicable
+	toBeAdded := rules
 
 	tmp := r.index.Clone()
 
